@@ -12,7 +12,7 @@ address of the simulator's sockets is fixed (10.9.9.9), so source-address change
 end to end (they are in the component engine `cookie`).
 """
 
-JUMPS = [1, 500, 1999, 119000, 119999, 120000, 120001, 121000, 299999, 300000, 300001, 86399999, 86400000, 86400001]
+JUMPS = [1, 1, 500, 500, 1999, 30000, 119000, 119999, 120000, 120001, 121000, 299999, 300000, 300001, 86399999, 86400000, 86400001]
 
 
 def hexb(rng, n):
@@ -39,6 +39,12 @@ def answer(rng, beh, state):
         if x < 0.9:
             return "rcode=23,cookie=none"
         return "rcode=23,cookie=bad"
+    if beh == "inject":
+        # every rcode x {no OPT, OPT without cookie, wrong / short / client-only-looking / valid cookie}
+        rc = rng.choice([1, 1, 1, 4, 2, 5, 16, 23, 9, 0, 3])
+        form = rng.choice(["noopt=1", "noopt=1", "cookie=none", "cookie=none", "cookie=bad", "cookie=" + hexb(rng, rng.choice([1, 7])),
+                           "cookie=" + hexb(rng, 8), "cookie=echo:" + state["srvck"]])
+        return "rcode=%d,%s" % (rc, form)
     if beh == "odd":
         return base + ",cookie=" + rng.choice([hexb(rng, 1), hexb(rng, 7), "echo:" + hexb(rng, 1), "echo:" + hexb(rng, 7),
                                                 "echo:" + hexb(rng, 33), hexb(rng, 41)])
@@ -53,7 +59,7 @@ def gen_case(rng, tier):
            "timeout=2000", "qcachettl=0", "clock=%d" % rng.choice([1000000, 1000000, 5000, 86400000 * 3])]
     if flags:
         cfg.append("flags=%s" % flags)
-    profile = rng.choice(["none", "valid", "valid", "changed", "wrong", "badcookie", "disappear", "mixed", "mixed"])
+    profile = rng.choice(["none", "valid", "valid", "changed", "wrong", "badcookie", "disappear", "mixed", "mixed", "downgrade", "downgrade"])
     state = {"srvck": hexb(rng, 8)}
     ops = []
     tok = 0
@@ -65,7 +71,11 @@ def gen_case(rng, tier):
             ops.append("proct")      # let timeouts fire on their own, not in the middle of a read
         beh = profile
         if profile == "mixed":
-            beh = rng.choice(["none", "valid", "changed", "wrong", "badcookie", "odd"])
+            beh = rng.choice(["none", "valid", "changed", "wrong", "badcookie", "odd", "inject"])
+        if profile == "downgrade":
+            # first let the server prove cookie support, then inject replies of every rcode / OPT form
+            # (mostly inside the regression window), each followed later by the genuine answer
+            beh = "valid" if r < rng.choice([1, 1, 2]) else "inject"
         if profile == "disappear":
             if r >= rounds // 2:
                 phase = 1
@@ -79,6 +89,12 @@ def gen_case(rng, tier):
             b = beh if rng.random() < 0.85 else rng.choice(["none", "valid", "wrong"])
             ops.append("rsp xl-%d %s" % (n - 1 - i, answer(rng, b, state)) if n - 1 - i else "rsp xl %s" % answer(rng, b, state))
         ops.append("run")
+        if beh == "inject":
+            # the genuine answer to whatever is outstanding now (the same transmission if the injected
+            # reply was ignored, the retransmission otherwise)
+            for _ in range(rng.choice([1, 1, 2])):
+                ops.append("rsp xl %s" % answer(rng, "valid", state))
+                ops.append("run")
         # chase resends (BADCOOKIE) and TCP fallbacks
         chase = rng.choice([0, 1, 2, 4]) if beh != "badcookie" else rng.choice([2, 3, 4, 5])
         for c in range(chase):
